@@ -62,7 +62,7 @@ func (jenny *Deserializers) genDataqueryDeserialiser(context languages.Context, 
 
 	rendered, err := jenny.tmpl.Render("marshalling/unmarshalling.tmpl", Unmarshalling{
 		Package:                   jenny.config.formatPackage(obj.SelfRef.ReferredPkg),
-		Name:                      obj.Name,
+		Name:                      formatObjectName(obj.Name),
 		ShouldUnmarshallingPanels: obj.SelfRef.ReferredPkg == "dashboard" && obj.Name == "Panel",
 		Imports:                   jenny.imports,
 		Fields:                    obj.Type.AsStruct().Fields,
@@ -72,7 +72,7 @@ func (jenny *Deserializers) genDataqueryDeserialiser(context languages.Context, 
 		return nil, err
 	}
 
-	path := filepath.Join(jenny.config.ProjectPath, obj.SelfRef.ReferredPkg, fmt.Sprintf("%sDeserializer.java", obj.SelfRef.ReferredType))
+	path := filepath.Join(jenny.config.ProjectPath, obj.SelfRef.ReferredPkg, fmt.Sprintf("%sDeserializer.java", formatObjectName(obj.SelfRef.ReferredType)))
 	return codejen.NewFile(path, []byte(rendered), jenny), nil
 }
 
